@@ -1,5 +1,6 @@
 import Driver.Catchment
 import Crem.Model.Suppapitnarm
+import Crem.Model.SuppaCatchment
 /-
 Oracle for the `suppa-runs` suite: the multi-objective explorer model composed with the catchment
 model (the real explorer is run over the real catchment model with scripted random sources).
@@ -27,22 +28,6 @@ def floatArith : Arith Float where
   gt := fun a b => a > b
   ofNat := Nat.toFloat
   trunc := fun x => x.toUInt64.toNat
-
-/-- order keys of the six totals in the order of the sorted variable names
-(DissolvedNitrogen, ImplementationCost, OpportunityCost, ParticulateNitrogen, SedimentProduction,
-TotalNitrogen): value · 10^precision, an integer because totals lie on their grid -/
-def keysOf (s : State) : List Int :=
-  [(s.dn.total * 1000).floor, (s.ic.total * 100).floor, (s.oc.total * 100).floor,
-   (s.pn.total * 1000).floor, (s.sed.total * 1000).floor, (s.tn.total * 1000).floor]
-
-def modelOps (D : Data) : ModelOps State where
-  compress := fun s => ⟨keysOf s, s.flags⟩
-  syncTo := fun s bits => setAll D s bits
-  randomize := fun s draws =>
-    match randomize D s draws with
-    | .found s' => s'
-    | .attemptLimit s' => s'
-    | .outOfDraws s' => s'
 
 structure St where
   c : Driver.Catchment.St := {}
